@@ -176,8 +176,12 @@ class Built:
             elif d["t"] == "factory":
                 log, key, v = self.log, n["key"], d["v"]
 
+                raises = d.get("raises")
+
                 def factory():
                     log.append(("factory", key))
+                    if raises:
+                        raise sem.EXC[raises](f"factory:{key}")
                     return copy.deepcopy(v)
                 kw["default_factory"] = factory
             else:
